@@ -93,6 +93,12 @@ func init() {
 	mutant(&Mutant{Name: "c03-colgroup-start-dropped-after-open-colgroup", Property: "C03", File: "html/html.go",
 		Old: "keepTag = next.TokenType != html.StartTagToken || next.Hash != Col || openColgroup\n", New: "keepTag = next.TokenType != html.StartTagToken || next.Hash != Col\n\t\t\t\t\t\t\t_ = openColgroup\n",
 		Rule: "R03.15", Construct: "colgroup start tag kept while a colgroup is open"})
+	mutant(&Mutant{Name: "c03-optgroup-lookahead-stops-at-comment", Property: "C03", File: "html/html.go",
+		Old: "if next.TokenType == html.TextToken || next.TokenType == html.CommentToken {\n\t\t\t\t\t\t\t\tcontinue", New: "if next.TokenType == html.TextToken {\n\t\t\t\t\t\t\t\tcontinue",
+		Rule: "R03.17", Construct: "optgroup look-ahead#1 steps over comments"})
+	mutant(&Mutant{Name: "c03-veto-skips-comments-by-own-predicate", Property: "C03", File: "html/html.go",
+		Old: "next.TokenType == html.CommentToken && !o.KeepComments && !o.KeepSpecialComments {", New: "next.TokenType == html.CommentToken && !o.KeepComments && (!o.KeepSpecialComments || len(next.Text) < 2) {",
+		Rule: "R03.14", Construct: "skips only comments that are never written"})
 	mutant(&Mutant{Name: "c03-attr-unescaped", Property: "C03", File: "html/html.go",
 		Old: "\t\t\t\t\t\tval = html.EscapeAttrVal(&attrByteBuffer, val, quote, o.KeepQuotes || isXML)\n", New: "\t\t\t\t\t\tif quote != 0 || len(val) > 3 {\n\t\t\t\t\t\t\tval = html.EscapeAttrVal(&attrByteBuffer, val, quote, o.KeepQuotes || isXML)\n\t\t\t\t\t\t}\n",
 		Rule: "R03.3", Construct: "attribute value"})
@@ -118,6 +124,7 @@ func runC03(c *Ctx) {
 	c.r0313(pk, fd)
 	c.r0314(pk, fd)
 	c.r0315(pk, fd)
+	c.r0317(pk, fd)
 	// an attribute wrongly marked boolean loses its value: the table check of C17, restricted to the attribute traits
 	// an attribute value that holds code decodes to the same value only if the code was minified as the browser reads it
 	c.alsoUnder(map[string]string{"R11.9": "R03.16"}, nil, func() { c.r119() })
@@ -129,7 +136,7 @@ func runC03(c *Ctx) {
 // R03.4: the end-tag-omission look-ahead only skips tokens that leave no trace in the output.
 func (c *Ctx) r034(pk *packages.Package, fd *ast.FuncDecl) {
 	const rule = "R03.4"
-	c.R.Rule(rule, "in the look-ahead loops that decide end-tag omission (loops over tb.Peek(i) that contain `omitEndTag = true`), the true outcome of a test next.TokenType == html.X may lead to the loop's `continue` (token skipped, decision taken on a later token) only for X = TextToken (whitespace-only / ignored text), and for X = CommentToken only if that outcome is unreachable when o.KeepComments or o.KeepSpecialComments is set: a token that is written to the output stands between the omitted end tag and the token the decision was based on, and the tree builder does not close the element on it")
+	c.R.Rule(rule, "in the look-ahead loops that decide end-tag omission (loops over tb.Peek(i) that contain `omitEndTag = true`), the true outcome of a test next.TokenType == html.X may lead to the loop's `continue` (token skipped, decision taken on a later token) only for X = TextToken (whitespace-only / ignored text), and for X = CommentToken only if that outcome is unreachable when o.KeepComments or o.KeepSpecialComments is set — or if the decision is afterwards subject to the veto that keeps the end tag in front of any comment that may be written (R03.14): a token that is written to the output stands between the omitted end tag and the token the decision was based on, and the tree builder does not close the element on it")
 	info := pk.TypesInfo
 	g := c.graph(pk, fd)
 	loops := 0
@@ -196,6 +203,42 @@ func (c *Ctx) r034(pk *packages.Package, fd *ast.FuncDecl) {
 				for _, key := range []string{"o.KeepComments", "o.KeepSpecialComments"} {
 					if pp := unreachableWhen(g, tn, key, true); pp != nil {
 						bad = key
+					}
+				}
+				if bad != "" {
+					// a veto behind the loop that keeps the end tag whenever a comment follows (R03.14) covers the kept ones
+					ast.Inspect(fd.Body, func(z ast.Node) bool {
+						vi, ok := z.(*ast.IfStmt)
+						if !ok || vi.Pos() < fs.End() {
+							return true
+						}
+						vc := nospace(str(vi.Cond))
+						if !strings.Contains(vc, ".TokenType==html.CommentToken") || !strings.Contains(vc, ".Hash==Script") {
+							return true
+						}
+						clears := false
+						for _, b := range vi.Body.List {
+							if as, ok := b.(*ast.AssignStmt); ok && len(as.Lhs) == 1 && str(as.Lhs[0]) == "omitEndTag" && str(as.Rhs[0]) == "false" {
+								clears = true
+							}
+						}
+						// same chain: the veto is in the block that contains the if-chain of this loop
+						if clears {
+							for p := c.P.Parent(fs); p != nil; p = c.P.Parent(p) {
+								if blk, ok := p.(*ast.BlockStmt); ok && blk.Pos() <= vi.Pos() && vi.End() <= blk.End() {
+									bad = ""
+									break
+								}
+								if _, isCase := p.(*ast.CaseClause); isCase {
+									break
+								}
+							}
+						}
+						return true
+					})
+					if bad == "" {
+						c.R.OK(rule, construct, c.pos(n.Expr), "kept comments fall under the veto behind the look-ahead (R03.14)")
+						continue
 					}
 				}
 				c.R.Check(bad == "", rule, construct, c.pos(n.Expr), "only when comments are dropped", "a comment that is kept in the output ("+bad+") is skipped by the look-ahead: `<div><p>x</p><!--c--></div>` loses </p> and the comment re-parses inside the paragraph")
@@ -1185,6 +1228,52 @@ func (c *Ctx) r0314(pk *packages.Package, fd *ast.FuncDecl) {
 				}
 			}
 			okLoop := loop != nil && loop.Cond != nil && strings.Contains(nospace(str(loop.Cond)), "html.CommentToken") && strings.Contains(nospace(str(loop.Cond)), "html.TextToken")
+			// which comments are skipped: only "no comment is ever written" can be decided here — the conjuncts next to the
+			// token test are exactly !o.KeepComments and !o.KeepSpecialComments
+			if okLoop {
+				var disj []ast.Expr
+				var splitOr func(e ast.Expr)
+				splitOr = func(e ast.Expr) {
+					e = ast.Unparen(e)
+					if b, ok := e.(*ast.BinaryExpr); ok && b.Op == token.LOR {
+						splitOr(b.X)
+						splitOr(b.Y)
+						return
+					}
+					disj = append(disj, e)
+				}
+				splitOr(loop.Cond)
+				for _, d := range disj {
+					if !strings.Contains(nospace(str(d)), "html.CommentToken") {
+						continue
+					}
+					var conj []string
+					var splitAnd func(e ast.Expr)
+					splitAnd = func(e ast.Expr) {
+						e = ast.Unparen(e)
+						if b, ok := e.(*ast.BinaryExpr); ok && b.Op == token.LAND {
+							splitAnd(b.X)
+							splitAnd(b.Y)
+							return
+						}
+						conj = append(conj, nospace(str(e)))
+					}
+					splitAnd(d)
+					have := map[string]bool{}
+					other := ""
+					for _, cj := range conj {
+						switch {
+						case cj == "!o.KeepComments" || cj == "!o.KeepSpecialComments":
+							have[cj] = true
+						case strings.HasSuffix(cj, ".TokenType==html.CommentToken") || strings.HasPrefix(cj, "html.CommentToken=="):
+						default:
+							other = cj
+						}
+					}
+					good := have["!o.KeepComments"] && have["!o.KeepSpecialComments"] && other == ""
+					c.R.Check(good, rule, fmt.Sprintf("html.Minifier.Minify/script-template veto#%d skips only comments that are never written", n), c.pos(d), "comments are skipped only with both keep options off", "the look-ahead skips a comment under a condition of its own ("+other+") instead of `!o.KeepComments && !o.KeepSpecialComments`: whether a comment is written is decided by the CommentToken case (conditional comments by prefix and by `[endif]` suffix, SSI tags), and a comment that is written after an omitted end tag becomes a child of the unclosed element (`<li>a</li><!--<![endif]-->` with KeepSpecialComments)")
+				}
+			}
 			c.R.Check(okLoop, rule, fmt.Sprintf("html.Minifier.Minify/script-template veto#%d looks past comments", n), c.pos(ifs), "the skipping loop covers white space text and comments", "the look-ahead in front of the veto does not skip comment tokens: a comment between the end tag and a script / template element hides that element, the end tag is omitted, the comment is dropped, and the element is parsed into the unclosed one")
 			c.R.Check(strings.Contains(cs, "html.CommentToken"), rule, fmt.Sprintf("html.Minifier.Minify/script-template veto#%d keeps the end tag in front of a kept comment", n), c.pos(ifs.Cond), "the veto names html.CommentToken", "a comment that is kept (KeepComments, KeepSpecialComments) is written right after the omitted end tag and becomes a child of the unclosed element")
 		}
@@ -1289,4 +1378,54 @@ func (c *Ctx) r0315(pk *packages.Package, fd *ast.FuncDecl) {
 		c.R.Check(has, rule, fmt.Sprintf("html.Minifier.Minify/colgroup start tag kept while a colgroup is open#%d", n), c.pos(as), "the verdict has the open-colgroup flag as a disjunct", "the colgroup start tag is dropped whenever a col follows, also right after a colgroup whose end tag is missing: its col elements are then parsed into that earlier group (`<colgroup span=2><colgroup><col></colgroup>` → one group of span 2 with a col in it)")
 	}
 	c.R.Floor(rule, "verdicts on a colgroup start tag", n, 1)
+}
+
+// R03.17: the optgroup end tag is judged on the next element, not on a comment in front of it.
+func (c *Ctx) r0317(pk *packages.Package, fd *ast.FuncDecl) {
+	const rule = "R03.17"
+	c.R.Rule(rule, "an optgroup end tag may be omitted unless an option follows outside the group. The look-ahead of html.(*Minifier).Minify omits it for every next token that is not an option start tag, after stepping over text tokens; a comment, which the minifier removes, must be stepped over too — otherwise `</optgroup><!--c--><option>b` loses the end tag and the comment, and option b is parsed into the group. In the `t.Hash == Optgroup` branch the loop's continue condition names html.CommentToken next to html.TextToken (a comment that is kept then falls under the veto of R03.14)")
+	n := 0
+	ast.Inspect(fd.Body, func(x ast.Node) bool {
+		ifs, ok := x.(*ast.IfStmt)
+		if !ok {
+			return true
+		}
+		cs := nospace(str(ifs.Cond))
+		if cs != "t.Hash==Optgroup" && cs != "Optgroup==t.Hash" {
+			return true
+		}
+		// the branch that sets omitEndTag
+		sets := false
+		ast.Inspect(ifs.Body, func(z ast.Node) bool {
+			if as, ok := z.(*ast.AssignStmt); ok && len(as.Lhs) == 1 && str(as.Lhs[0]) == "omitEndTag" {
+				sets = true
+			}
+			return true
+		})
+		if !sets {
+			return true
+		}
+		n++
+		skips := false
+		ast.Inspect(ifs.Body, func(z ast.Node) bool {
+			inner, ok := z.(*ast.IfStmt)
+			if !ok {
+				return true
+			}
+			hasContinue := false
+			for _, st := range inner.Body.List {
+				if bs, ok := st.(*ast.BranchStmt); ok && bs.Tok == token.CONTINUE {
+					hasContinue = true
+				}
+			}
+			ic := nospace(str(inner.Cond))
+			if hasContinue && strings.Contains(ic, "html.TextToken") && strings.Contains(ic, "html.CommentToken") {
+				skips = true
+			}
+			return true
+		})
+		c.R.Check(skips, rule, fmt.Sprintf("html.Minifier.Minify/optgroup look-ahead#%d steps over comments", n), c.pos(ifs), "text and comment tokens are stepped over", "the look-ahead decides on a comment token as if it were the next element: it is not an option, so `</optgroup>` is omitted, the comment is removed and a following option is parsed into the group (`<select><optgroup label=x><option>a</option></optgroup><!--c--><option>b</option></select>`)")
+		return false
+	})
+	c.R.Floor(rule, "optgroup end tag look-aheads", n, 1)
 }
